@@ -74,6 +74,7 @@ def _separator(fn):
 COMPOUND = "autofit/mapper/prior/arithmetic/compound.py"
 MODEL_OBJECT = "autofit/mapper/model_object.py"
 LOG_GAUSSIAN = "autofit/mapper/prior/log_gaussian.py"
+COLLECTION = "autofit/mapper/prior_model/collection.py"
 DRAWER = "autofit/non_linear/search/mle/drawer/search.py"
 ABSTRACT_SEARCH = "autofit/non_linear/search/abstract_search.py"
 
@@ -150,8 +151,38 @@ def _facts(repo):
     registered = [e.value for n in ast.walk(itree) if isinstance(n, ast.For) and isinstance(n.iter, ast.Tuple)
                   and any(isinstance(c, ast.Call) and T._dotted(c.func) == "register_parser" for c in ast.walk(n))
                   for e in n.iter.elts if isinstance(e, ast.Constant)]
+    # Collection.gaussian_prior_model_for_arguments (the LAST definition in the class body is the effective one): the new
+    # collection is filled by key and then takes over item_number (a token of the description) from its source
+    coltree, _ = T.parse_file(repo, COLLECTION)
+    defs = [n for n in _class(coltree, "Collection").body if isinstance(n, ast.FunctionDef)
+            and n.name == "gaussian_prior_model_for_arguments"]
+    if not defs:
+        raise T.TranslationError("Collection defines no gaussian_prior_model_for_arguments")
+    eff = defs[-1]
+    news = [a for a in T.assigns(eff, "collection") if isinstance(a.value, ast.Call) and T._dotted(a.value.func) == "Collection"
+            and not a.value.args and not a.value.keywords]
+    if len(T.assigns(eff, "collection")) != 1 or len(news) != 1:
+        raise T.TranslationError("Collection.gaussian_prior_model_for_arguments does not start from exactly one `collection = Collection()`")
+    rets = [n for n in ast.walk(eff) if isinstance(n, ast.Return)]
+    if len(rets) != 1 or T._dotted(rets[0].value) != "collection" or eff.body[-1] is not rets[0]:
+        raise T.TranslationError("Collection.gaussian_prior_model_for_arguments does not end with the single `return collection`")
+    sets = [n for n in ast.walk(eff) if isinstance(n, (ast.Assign, ast.AugAssign, ast.AnnAssign))
+            and any("item_number" in ast.unparse(t) for t in (n.targets if isinstance(n, ast.Assign) else [n.target]))]
+    calls = [n for n in ast.walk(eff) if isinstance(n, ast.Call) and T._dotted(n.func) in ("setattr", "collection.append", "delattr")]
+    if calls:
+        raise T.TranslationError("Collection.gaussian_prior_model_for_arguments uses %s: unknown effect on item_number"
+                                 % ast.unparse(calls[0]))
+    if not sets:
+        copies_item_number = False
+    elif len(sets) == 1 and isinstance(sets[0], ast.Assign) and len(sets[0].targets) == 1 and sets[0] in eff.body \
+            and T._dotted(sets[0].targets[0]) == "collection.item_number" and T._dotted(sets[0].value) == "self.item_number":
+        copies_item_number = True
+    else:
+        raise T.TranslationError("Collection.gaussian_prior_model_for_arguments sets item_number in an unknown way: %s"
+                                 % "; ".join(ast.unparse(x) for x in sets))
     global _MORE_FACTS
     _MORE_FACTS = {
+        "derive_copies_item_number": copies_item_number,
         "modified_prior_storable": operand_cls == "ModelObject" and "modified" in registered,
         # a parameter-free Model is written as "instance" only when _instance_is_exact(model)
         "instance_only_when_exact": any(isinstance(n, ast.FunctionDef) and n.name == "_instance_is_exact" for n in mtree.body)
@@ -244,6 +275,8 @@ def regenerate(repo=None):
         "Definition modified_prior_storable : bool := %s." % ("true" if _MORE_FACTS["modified_prior_storable"] else "false"),
         "(* ModelObject.dict writes a parameter-free Model as 'instance' only when _instance_is_exact *)",
         "Definition instance_only_when_exact : bool := %s." % ("true" if _MORE_FACTS["instance_only_when_exact"] else "false"),
+        "(* %s: the effective Collection.gaussian_prior_model_for_arguments ends with collection.item_number = self.item_number *)" % COLLECTION,
+        "Definition derive_copies_item_number : bool := %s." % ("true" if _MORE_FACTS["derive_copies_item_number"] else "false"),
         "",
     ]
     text = "\n".join(lines)
@@ -260,8 +293,8 @@ def regenerate(repo=None):
         "join_sep": {"source": repr(sep), "line": sep_line},
         "numpy_scalars_unwrapped": bool(unwraps),
         "sets_sorted": bool(sorts),
-        "facts": {"source": "numpy scalars unwrapped=%r sets sorted=%r modified prior storable=%r instance only when exact=%r "
-                            % (bool(unwraps), bool(sorts), _MORE_FACTS["modified_prior_storable"], _MORE_FACTS["instance_only_when_exact"]) + "CompoundPrior.__identifier_fields__=%r ModifiedPrior.__identifier_fields__=%r from_dict restores "
+        "facts": {"source": "numpy scalars unwrapped=%r sets sorted=%r modified prior storable=%r instance only when exact=%r derived collection copies item_number=%r "
+                            % (bool(unwraps), bool(sorts), _MORE_FACTS["modified_prior_storable"], _MORE_FACTS["instance_only_when_exact"], _MORE_FACTS["derive_copies_item_number"]) + "CompoundPrior.__identifier_fields__=%r ModifiedPrior.__identifier_fields__=%r from_dict restores "
                             "item_number=%r LogGaussianPrior.dict=%r Drawer search.json readable=%r" % (compound, modified, restores, has_dict, drawer_ok),
                   "line": 0},
     }
@@ -1446,10 +1479,11 @@ def derive_cases(rng, gen, S, quick):
         routes = sorted(set(routes) | {rng.choice(["identity", "partial", "args", "with_limits", "means_a", "uniform_floats"])})
     for route in routes:
         D, H = derive_step(rng, gen, base, route)
-        steps, hand = [D], H
+        steps, hand, pools = [D], H, [H["pool"]]
         if rng.random() < 0.3:              # a derived model is derived again (a cell of a grid over a passed prior model)
             D2, hand = derive_step(rng, gen, H, rng.choice(["partial", "with_limits", "means_a", "identity", "copy", "uniform_floats"]))
             steps.append(D2)
+            pools.append(hand["pool"])
         how = "derive:" + "+".join(d["route"] for d in steps)
         b = with_build(base, derive=steps)
         out.append({"kind": "pair", "how": how, "expect": "same", "a": hand, "b": b, "labels": []})
@@ -1458,7 +1492,7 @@ def derive_cases(rng, gen, S, quick):
             out.append({"kind": "pair", "how": "derive_files:" + how[7:], "expect": "same", "a": hand,
                         "b": with_build(base, derive=steps, route="files", export=rng.random() < 0.3), "labels": []})
         if r > (0.6 if quick else 0.3):
-            out.append({"kind": "fit", "spec": b, "hand": hand})
+            out.append({"kind": "fit", "spec": b, "hand": hand, "step_pools": pools})
         # the derived model still differs from the model it was derived from whenever a prior changed
         if hand["pool"] != base["pool"] and rng.random() < 0.3 and _json.dumps(hand["pool"], sort_keys=True) != _json.dumps(base["pool"], sort_keys=True):
             changed = [i for i in used_refs(base) if hand["pool"][i] != base["pool"][i]]
@@ -1783,6 +1817,9 @@ def oracle(c, r):
                     out.append(("output folder is not named by the identifier", False))
                 if b.get("paths_identifier") != ida:
                     out.append(("paths.identifier of the written fit differs from the identifier", False))
+                if b.get("identifier") is not None and b.get("identifier") != b.get("folder"):
+                    out.append(("the fit wrote its files to folder %s but model.json / search.json read back from that folder "
+                                "(SearchOutput.id) give the identifier %s" % (b.get("folder"), b.get("identifier")), False))
             if "raised" in b:
                 out.append(("equal construction (%s): %s at stage %s of going through the fit's own files"
                             % (c["how"], b["raised"], b.get("stage")), True))
@@ -1818,7 +1855,23 @@ def coq_terms(c, r):
     """list of Coq `case` terms for one implementation result"""
     k = c["kind"]
     out = []
-    if k == "fit" and "raised" not in r and r.get("abs_model"):
+    if k == "fit" and c.get("hand") and "raised" not in r and r.get("abs_model"):
+        # the fitted model was derived by the library: its shape and description against the model of the derivation
+        # and against the composition by hand (ids erased on both sides)
+        S, H = c["spec"], c["hand"]
+        fl = spec_floats(S, set())
+        spec_floats(H, fl)
+        for pl in c["step_pools"]:
+            spec_floats({"pool": pl, "model": {"t": "none"}, "search": S["search"]}, fl)
+        abs_floats(r["abs_model"], fl)
+        used = used_refs(S)
+        steps = [clist([cpair(cZ(i), node_term({"t": "prior", "ref": i}, pl)) for i in used])
+                 for d, pl in zip(S["build"]["derive"], c["step_pools"]) if d["route"] not in ("copy", "freeze", "freeze_unfreeze")]
+        if all(ascii_ok(x) for x in r["hash_list"]):
+            out.append("CDerive %s %s %s %s %s %s %s %s" % (
+                str_table(fl), search_term(S["search"]), node_term(S["model"], S["pool"]), node_term(H["model"], H["pool"]),
+                clist(steps), copt(S.get("tag"), cstr), obj_term(r["abs_model"]), cslist(r["hash_list"])))
+    elif k == "fit" and "raised" not in r and r.get("abs_model"):
         S = c["spec"]
         fl = spec_floats(S, set())
         abs_floats(r["abs_model"], fl)
@@ -1877,7 +1930,12 @@ def run(ctx):
                 "sub-resolution float change) or a DIFFERENT one (one prior parameter/family, fixed value, class, sharing pattern, "
                 "attribute, key, operator, identifying search setting, search class, tag), (c) generic Python values for the walk, "
                 "incl. values the walk has no branch for (numpy scalars, complex, 0-d arrays), sets, a dict subclass, "
-                "(d) single floats for the rounding. A fit/pair is non-trivial when the model has >= 2 priors and a shared prior, "
+                "(d) single floats for the rounding, (e) models DERIVED by the library from a composition (identity arguments, "
+                "mapper_from_partial_prior_arguments = grid-search cell, replacing, mapper_from_prior_arguments, with_limits, "
+                "mapper_from_prior_means a/r, mapper_from_uniform_floats, model_absolute/relative/bounded of a SamplesSummary / Result, "
+                "copy, freeze, unfreeze, derivation from a frozen model, two derivations in a row) paired with the equal model composed "
+                "by hand: same identifier directly and through the files a fit of the derived model writes; must differ from the "
+                "source when a prior changed. A fit/pair is non-trivial when the model has >= 2 priors and a shared prior, "
                 "nesting >= 2, a tuple, arithmetic or a constant (search/tag pairs always); distinct = distinct abstract input")
     ctx.trusted = [
         "Coq 8.16.1 kernel incl. vm_compute; primitive floats are kernel primitives",
@@ -1959,6 +2017,11 @@ def run(ctx):
             for f in sorted(features(c.get("spec") or c["a"])):
                 ctx.hist("feature", f)
             ctx.hist("search", (c.get("spec") or c["a"])["search"]["cls"])
+            dv = (c.get("spec") or c["b"]).get("build", {}).get("derive")
+            if dv:
+                for d in dv:
+                    ctx.hist("derive_route", d["route"])
+                ctx.hist("derive_source", "positional collection" if "item_number" in features(c.get("spec") or c["b"]) else "other")
         if "exc" in r:
             if c.get("corpus"):
                 corpus_failed[c["corpus"]] = "driver failed: %s" % r["exc"]
@@ -2033,13 +2096,18 @@ MANIFEST = {
             "vm_compute correspondence token by token and shape by shape with the running code, plus a direct oracle on equal "
             "constructions (ids, order, labels, deepcopy, keyword order, JSON, files written by save_all and by real fits read "
             "through SearchOutput in the same and in another process, a search re-used for a second fit, configuration defaults "
-            "given explicitly, sub-resolution floats) and on every single-field perturbation class incl. the 1e-8..2.5e-8 band, for "
+            "given explicitly, sub-resolution floats; models derived by the library -- grid-search cells, replacing, prior passing "
+            "by means / uniform floats / a Result, with_limits, copies, freezing, chained derivations -- against the equal model "
+            "composed by hand, directly and through the files a fit of the derived model writes, with theorems "
+            "C07_derived_same_identifier / _copy_same_identifier / _roundtrip over a model of gaussian_prior_model_for_arguments whose "
+            "item_number rule is read from the source) and on every single-field perturbation class incl. the 1e-8..2.5e-8 band, for "
             "all eleven search classes",
     "note": "Trusted: Coq kernel + vm_compute, the translator part of c07.py, the live-object abstraction of c07_impl.py (it mirrors two "
             "code facts: numpy unwrapping, set sorting), str(float) and md5 as oracle / injectivity hypotheses. The sensitivity "
             "theorems are per perturbation in context, not global injectivity (refuted). A ModifiedPrior under a class with prior "
             "configuration (silent default on reload) and plain objects whose constructor arguments cannot be read back are checked "
-            "by the oracle only. identifier_version config, md5 collisions, Array models are not covered. Eight genuine defects are "
+            "by the oracle only. identifier_version config, md5 collisions, Array models are not covered. Derivations of models holding arithmetic "
+            "priors and Result.model (widths from configuration) are not generated. Eight genuine defects are "
             "recorded as known findings (one with a proposed repair); four were repaired in /repo during construction.",
     "technique": "machine-checked proof in Coq (translator-regenerated constants and code facts) + vm_compute correspondence + property oracle",
 }
